@@ -22,12 +22,20 @@
                                (t == t, t == t.clone(), t.clone() == t, t.view() == t.view(),
                                 t == t.view(), t.view() == t) then the same six for `similar`,
                                same-object operands included
+     (13 30 sub term ..)       the TensorView methods over ANY view of the C02 algebra as the source
+                               (Model/TransformG.v; `term` / `rhs` in the term language of
+                               Run/RunC02.v, elements are leaf*1000 + offset):
+                               sub 1 dims reorder | 2 dims transpose | 8 a b map | 9 map_with_index
+                               | 12 rhs elementwise | 13 rhs elementwise_with_index | 14 first
+                               | 20 rhs (l == r, l.similar(r), r == l, r.similar(l), l == l)
+                               a failing constructor of a term is reported as in C02: (1 e) | (2)
    with code(i) = fold (acc -> acc*7 + i_d + 1) 0 i, and the with-index maps x -> 1000x + code(i).
    A tensor result is (shape ((v)…)) : its shape and the element found by get_reference at every
    index in row-major order.  Results are outcomes: (0 r) | (1 shape) | (2). *)
 From Coq Require Import List ZArith NArith Bool Arith.
 From EasyML Require Import Base.Sx Model.Shape Model.Tensor Model.TSource Model.ShapeIter
-  Model.Transform.
+  Model.Transform Model.TransformG.
+From EasyML Require Model.Views Run.RunC02.
 Import ListNotations.
 Open Scope N_scope.
 
@@ -78,8 +86,58 @@ Definition c13_nan (sh : shape) (data : list Z) (nans : list nat) : sx :=
     SL [e; e; e; e; e; e; s; s; s; s; s; s])
     (tensor_from sh (with_nans data nans 0)).
 
+(* op 30: C02 view terms as sources *)
+Definition c02_source (c : Views.cview) : gsrc Z :=
+  of_cview c (fun e => Some (Views.leaf_value e)).
+Definition dcview (t : sx) : option (outcome Views.cview) :=
+  match RunC02.dview 40 t with
+  | Some v => if RunC02.nodup_b (RunC02.v_leaf_ids v) then Some (Views.v_ctor v) else None
+  | None => None
+  end.
+Definition with_view (t : sx) (k : gsrc Z -> sx) : sx :=
+  match dcview t with
+  | Some o => match o with Ok c => k (c02_source c) | Err e => SL [SZ 1%Z; e] | Panic => SL [SZ 2%Z] end
+  | None => bad_case
+  end.
+Definition c13_over_views (sub : Z) (t : sx) (rest : list sx) : sx :=
+  match sub, rest with
+  | 1%Z, [dims] =>
+      match dnames dims with
+      | Some dims => with_view t (fun g => if Nat.eqb (length dims) (length (gs_shape g))
+                                           then sot (g_reorder g dims) else bad_case)
+      | None => bad_case end
+  | 2%Z, [dims] =>
+      match dnames dims with
+      | Some dims => with_view t (fun g => if Nat.eqb (length dims) (length (gs_shape g))
+                                           then sot (g_transpose g dims) else bad_case)
+      | None => bad_case end
+  | 8%Z, [a; b] =>
+      match dZ a, dZ b with
+      | Some a, Some b => with_view t (fun g => sot (g_map (f_map a b) g))
+      | _, _ => bad_case end
+  | 9%Z, [] => with_view t (fun g => sot (g_map_with_index f_map_wi g))
+  | 14%Z, [] => with_view t (fun g => soutcome SZ (g_first g))
+  | 12%Z, [rhs] =>
+      with_view t (fun l => with_view rhs (fun r =>
+        if Nat.eqb (length (gs_shape l)) (length (gs_shape r))
+        then sot (g_elementwise f_ew l r) else bad_case))
+  | 13%Z, [rhs] =>
+      with_view t (fun l => with_view rhs (fun r =>
+        if Nat.eqb (length (gs_shape l)) (length (gs_shape r))
+        then sot (g_elementwise_with_index f_ew_wi l r) else bad_case))
+  | 20%Z, [rhs] =>
+      with_view t (fun l => with_view rhs (fun r =>
+        if Nat.eqb (length (gs_shape l)) (length (gs_shape r))
+        then SL [sbool (g_equality Z.eqb l r); sbool (g_similarity Z.eqb l r);
+                 sbool (g_equality Z.eqb r l); sbool (g_similarity Z.eqb r l);
+                 sbool (g_equality Z.eqb l l)]
+        else bad_case))
+  | _, _ => bad_case
+  end.
+
 Definition run_c13 (args : list sx) : sx :=
   match args with
+  | SZ 30%Z :: SZ sub :: t :: rest => c13_over_views sub t rest
   | [SZ 21%Z; sh; data; nans] =>
       match dshape sh, dlist dZ data, dlist dnat nans with
       | Some sh, Some data, Some nans => c13_nan sh data nans
